@@ -85,7 +85,6 @@ struct Step {
     n: Vec<f64>,
     tol_z: Vec<f64>,
     tol_n: Vec<f64>,
-    probs: Vec<f64>,
     near_f32_boundary: bool,
     saturated: bool,
 }
@@ -95,7 +94,6 @@ fn step(z: &[f64], n: &[f64], b: &FtrlBatch, c: &FtrlCase) -> Step {
     let w: Vec<f64> = (0..p).map(|j| weight(z[j], n[j], c)).collect();
     let mut g = vec![0.0; p];
     let mut gscale = vec![0.0; p];
-    let mut probs = vec![];
     let mut near = false;
     let mut saturated = false;
     for (row, y) in b.x.iter().zip(&b.y) {
@@ -109,7 +107,6 @@ fn step(z: &[f64], n: &[f64], b: &FtrlBatch, c: &FtrlCase) -> Step {
             near = true;
         }
         let pf = pr as f32 as f64;
-        probs.push(pf);
         let d = pf - if *y { 1.0 } else { 0.0 };
         for j in 0..p {
             g[j] += d * row[j];
@@ -129,7 +126,7 @@ fn step(z: &[f64], n: &[f64], b: &FtrlBatch, c: &FtrlCase) -> Step {
         tol_z[j] = TOL_STATE * (z[j].abs() + gscale[j] + (s.abs() + s_err) * w[j].abs()) + 1e-300;
         tol_n[j] = TOL_STATE * (n[j] + gscale[j] * gscale[j]) + 1e-300;
     }
-    Step { z: z2, n: n2, tol_z, tol_n, probs, near_f32_boundary: near, saturated }
+    Step { z: z2, n: n2, tol_z, tol_n, near_f32_boundary: near, saturated }
 }
 
 fn well_formed(c: &FtrlCase) -> bool {
